@@ -9,7 +9,7 @@
    destroying an object from inside its own notification is outside the quantifier (the model answers "unmodelled").
    See DESIGN.md 6/C10. *)
 From KDB Require Import Util GenIdx GenIdxProofs SigDefs SigInv SigTheorems SigEmit SigDisc.
-From KDB Require PropDefs PropProofs PropFlags PropLink PropLinkTheorems.
+From KDB Require PropDefs PropProofs PropFlags PropLink PropLinkTheorems PropDestroyed.
 
 Theorem C10_destroyed_signal_handles_inactive :
   forall w s i m, winv w -> lookup (w_sigs w) s = Some (Some i) -> get_impl w i = Some m -> i_emitting m = false ->
@@ -75,6 +75,43 @@ Theorem C10_no_orphan_subscription :
                  In {| PropDefs.h_table := t; PropDefs.h_pos := pos; PropDefs.h_serial := ser |} (PropLink.lf_handles lf).
 Proof. exact PropLinkTheorems.no_orphan_subscription. Qed.
 Print Assumptions C10_no_orphan_subscription.
+
+(* "A destroyed property announces destroyed() exactly once (a moved-from one not at all)" (coq/PropDestroyed.v): in ANY world that
+   satisfies the link invariant, ~Property records exactly one call per observer connected to its destroyed() signal, in connection
+   order, each seeing the value the property still has - and nothing else; afterwards the property is gone, so it can not be destroyed
+   (or announce anything) again, and its tables are dead (C10_destroyed_signal_handles_inactive) *)
+Theorem C10_destroyed_announced_exactly_once :
+  forall fn rtl fuel w p pr w',
+    PropLink.pinv w -> PropFlags.NOEMIT w -> lookup (PropDefs.w_props w) p = Some pr ->
+    PropDefs.step1 fn rtl fuel w (PropDefs.PDel p) = (w', None) ->
+    PropDefs.w_trace w' =
+      rev (map (fun label => PropDefs.EvNotify label PropDefs.KDestroyed [] (Some (PropDefs.pr_value pr)))
+               (PropProofs.all_labels w (PropDefs.pr_destroyed pr))) ++ PropDefs.w_trace w /\
+    lookup (PropDefs.w_props w') p = None.
+Proof. exact PropDestroyed.destroy_announces_once. Qed.
+Print Assumptions C10_destroyed_announced_exactly_once.
+
+(* a moved-from property (no destroyed signal any more: C11_property_move_construction_transfers) records nothing when it dies *)
+Theorem C10_moved_from_announces_nothing :
+  forall fn rtl fuel w p pr w',
+    PropLink.pinv w -> PropFlags.NOEMIT w -> lookup (PropDefs.w_props w) p = Some pr -> PropDefs.pr_destroyed pr = None ->
+    PropDefs.step1 fn rtl fuel w (PropDefs.PDel p) = (w', None) ->
+    PropDefs.w_trace w' = PropDefs.w_trace w /\ lookup (PropDefs.w_props w') p = None.
+Proof. exact PropDestroyed.moved_from_announces_nothing. Qed.
+Print Assumptions C10_moved_from_announces_nothing.
+
+(* non-vacuity: property 0 with two destroyed() observers and a reader is moved to 5; destroying the moved-from 0 calls nobody, destroying
+   5 calls both observers once, in connection order *)
+Example C10_destroyed_example :
+  let fn := fun (f : nat) (l : list Z) => Some (fold_right Z.add 0%Z l) in
+  let ops := [PropDefs.PNew 0 4%Z; PropDefs.PObserve 0 PropDefs.KDestroyed 70 0 None; PropDefs.PObserve 0 PropDefs.KDestroyed 71 1 None;
+              PropDefs.PBind 1 (PropDefs.EOp1 0 (PropDefs.EProp 0)) PropDefs.MImmediate; PropDefs.PMoveCtor 0 5] in
+  let notes := fun w => filter (fun e => match e with PropDefs.EvNotify _ _ _ _ => true | _ => false end) (PropDefs.w_trace w) in
+  PropLinkTheorems.run_okb fn true 6 PropDefs.world0 (ops ++ [PropDefs.PDel 0; PropDefs.PDel 5]) = true /\
+  notes (PropDefs.run fn true 6 (ops ++ [PropDefs.PDel 0])) = [] /\
+  notes (PropDefs.run fn true 6 (ops ++ [PropDefs.PDel 0; PropDefs.PDel 5])) =
+    [PropDefs.EvNotify 71 PropDefs.KDestroyed [] (Some 4%Z); PropDefs.EvNotify 70 PropDefs.KDestroyed [] (Some 4%Z)].
+Proof. vm_compute. repeat split; reflexivity. Qed.
 
 (* non-vacuity: a legal history with bindings over shared inputs, an observer that resets, a user-held binding, destruction of an
    input, of a bound property and of an evaluator in "wrong" orders: legal (run_okb), the invariant's executable form holds at
